@@ -104,6 +104,10 @@ impl RecvConn {
     /// Reads from the source once but takes care that the internal buffer only reaches at maximum max_buffer_size
     /// so we can process messages separatly and avoid leaking file descriptors to wrong messages
     fn refill_buffer(&mut self, max_buffer_size: usize, timeout: Timeout) -> Result<()> {
+        // Only grow the buffer in steps. The size of the message is whatever the other side claims it to be,
+        // memory should only be committed for bytes that actually arrive.
+        const MAX_GROWTH: usize = 64 * 1024;
+        let max_buffer_size = usize::min(max_buffer_size, self.msg_buf_in.len() + MAX_GROWTH);
         self.msg_buf_in.reserve(max_buffer_size);
 
         // Borrow all the fields because we can't use self in the closure...
@@ -183,6 +187,12 @@ impl RecvConn {
 
         let bytes_needed =
             complete_header_size + padding_between_header_and_body + header.body_len as usize;
+        if header_fields_len as usize > unmarshal::MAX_ARRAY_LEN
+            || bytes_needed > unmarshal::MAX_MESSAGE_LEN
+        {
+            // do not even try to allocate space for messages the protocol does not allow
+            return Err(UnmarshalError::MessageTooLong.into());
+        }
         Ok(bytes_needed)
     }
 
